@@ -264,15 +264,23 @@ func (r *run) registerChange(tx *wire.MsgTx) {
 	}
 }
 
-// resync restarts the wallet and checks the re-broadcast.
+// resync makes the wallet synchronise again - after a restart, after the
+// backend connection was re-established on the running wallet, or through an
+// explicit rescan request - and checks the re-broadcast.
 func (r *run) resync(t *rapid.T) {
 	s := r.Scenario
 	s.F.Quiesce()
 	pending := r.unconfirmed()
+	how := rapid.SampledFrom([]string{"restart", "restart", "reconnect", "rescan"}).Draw(t, "resyncHow")
 	mineFirst := rapid.IntRange(0, 3).Draw(t, "mineWhileDown") == 0
-	s.F.Stop()
+	if how == "restart" {
+		s.F.Stop()
+	}
 	if mineFirst {
 		s.F.Chain.Extend(nil, s.Tick(), nil, 0)
+		if how != "restart" {
+			s.F.Quiesce()
+		}
 	}
 	// the backend may have lost its mempool (restart); it may then refuse one
 	// of the re-offered transactions - and with it everything spending it
@@ -288,7 +296,10 @@ func (r *run) resync(t *rapid.T) {
 			rejectRoot = &h
 		}
 	}
-	s.F.Open()
+	if how == "restart" {
+		s.F.Open()
+	}
+	base := len(s.F.Client.CallsOf("SendRawTransaction"))
 	s.F.Client.SendAnswer = func(tx *wire.MsgTx) error {
 		h := tx.TxHash()
 		if rejectRoot != nil && h == *rejectRoot {
@@ -306,16 +317,27 @@ func (r *run) resync(t *rapid.T) {
 		}
 		return nil
 	}
-	s.F.Unlock()
-	s.F.Connect()
+	switch how {
+	case "restart":
+		s.F.Unlock()
+		s.F.Connect()
+	case "reconnect":
+		// the RPC connection came back: the wallet is told so and synchronises again
+		s.F.Connect()
+	case "rescan":
+		if err := s.F.W.Rescan(nil, nil); err != nil {
+			s.F.Violation("Wallet.Rescan failed: %v", err)
+		}
+	}
+	s.C.Class("resync-by-" + how)
 	// the re-broadcast runs in a goroutine of the wallet: wait on the call log
-	if !s.F.Client.WaitCalls("SendRawTransaction", len(pending), 20*time.Second) {
+	if !s.F.Client.WaitCalls("SendRawTransaction", base+len(pending), 20*time.Second) {
 		got := s.F.Client.CallsOf("SendRawTransaction")
-		s.F.Violation("after the resynchronisation %d unconfirmed transactions should be offered to the backend again, %d were (waited 20s)", len(pending), len(got))
+		s.F.Violation("after the resynchronisation (%s) %d unconfirmed transactions should be offered to the backend again, %d were (waited 20s)", how, len(pending), len(got)-base)
 	}
 	s.F.Quiesce()
 	s.F.Client.SendAnswer = nil
-	calls := s.F.Client.CallsOf("SendRawTransaction")
+	calls := s.F.Client.CallsOf("SendRawTransaction")[base:]
 	pos := map[chainhash.Hash]int{}
 	for i, c := range calls {
 		if _, dup := pos[c.TxHash]; !dup {
@@ -364,9 +386,9 @@ func (r *run) resync(t *rapid.T) {
 		}
 	}
 	s.F.CheckBalances("after resynchronisation", s.Book, []int32{0, 1})
-	s.C.Logf("resync: %d unconfirmed transactions re-offered (%d parent/child edges)", len(pending), edges)
+	s.C.Logf("resync (%s): %d unconfirmed transactions re-offered (%d parent/child edges)", how, len(pending), edges)
 	if len(pending) > 0 {
-		s.C.Class("rebroadcast-after-restart")
+		s.C.Class("rebroadcast-after-" + how)
 		s.C.NonTrivial()
 	}
 	if edges > 0 {
